@@ -157,7 +157,18 @@ def _run(sc):
                 sa = i.get("sa", INTR)
                 sim.log({"ev": "intr", "node": "I", "sa": sa, "ptr_lo": ptr & 0xFFFF, "ptr_hi": ptr >> 16})
                 n.ecu.send_pgn(0, 0xD9, SERVER, 6, sa, data)
-            sim.after(1, go)
+            if i.get("reentrant"):
+                # zero latency: the intruding request reaches the serving stack while the sender of frame k is still inside
+                # its send call (if that sender is the serving stack itself: re-entrantly)
+                srv_node = nodes["S"][0]
+                saved = srv_node.latency
+                srv_node.latency = 0
+                try:
+                    go()
+                finally:
+                    srv_node.latency = saved
+            else:
+                sim.after(1, go)
     sim.on_frame = on_frame
     for nm in ("C", "S"):           # the initial projection (before any operation)
         sim.touch(nodes[nm][0])
